@@ -1309,6 +1309,29 @@ def R3(ctx, rule="R3", parts=("structures", "counts", "graph-field")):
         ctx.bad(rule, "augment", m.where(b), "build() does not call a crate-local function taking `&mut` the user's graph (data-edge augmentation missing)")
         return
     gsrc = fl.sources_operand(b, aug[1]["args"][0])
+    # the augmentation runs on every path through build(): a fast path that skips it (no readers / no edges / a single
+    # function ..) leaves conflicting functions unordered for the graphs it applies to. Only a test on the number of
+    # functions may bypass it.
+    byp = b.reachable(0, avoid={aug[0]}) & set(b.exits())
+    bad_g = None
+    if byp:
+        can_aug = set(x for x in range(len(b.blocks)) if x == aug[0] or aug[0] in b.reachable(x))
+        r0 = b.reachable(0, avoid={aug[0]}) | {0}
+        for x in sorted(r0):
+            if b.blocks[x]["term"]["k"] != "switch" or x not in can_aug:
+                continue
+            for s_ in b.succs(x):
+                if s_ not in can_aug and (({s_} | b.reachable(s_)) & set(b.exits())) and not b.blocks[s_].get("cleanup"):
+                    de = strip_refs(switch_expr_(b, x))
+                    calls_ = [c[1] for c in walk_expr(de) if c.kind == "call"]
+                    fine = bool(calls_) and all(c in NODE_COUNT_FNS or c.split("::")[-1] in ("len", "is_empty") for c in calls_) and \
+                        not any(c.endswith("::edge_count") for c in calls_)
+                    if not fine:
+                        bad_g = (x, de)
+    ctx.check(bad_g is None, rule, "augment-always", m.where(b, bad_g[0]) if bad_g else m.where(b, aug[0]),
+              "the data-edge augmentation runs on every path through build()",
+              "build() skips the data-edge augmentation under `%s`: for those graphs conflicting functions stay unordered" % (
+                  fmt_expr(bad_g[1], b)[:100] if bad_g else ""))
     # a private phase helper that takes `&mut graph` and itself runs ranks -> augmentation -> counts: the order of those three
     # is checked inside it, build() only has to copy the structure after calling it
     hb = ctx.fb.bodies.get(callee_path(aug[1]) or "")
